@@ -1,10 +1,15 @@
-(* C11 — virtual staking tokens never leak (partial: the mint/delegate and
-   unbond/burn pairing of the rebalance is covered by the exact correspondence of
-   bank and staking view, not by a theorem). *)
+(* C11 — virtual staking tokens never leak.  Proved: no user / governance message or slash callback
+   changes the staking-denom supply; the rebalance pairs every mint with a delegation into a staking
+   pool and every burn with coins taken out of the bonded pool, so the supply OUTSIDE the two pools
+   is the same before and after it (C11_minted_tokens_stay_in_the_pools, every reachable state);
+   the end-of-block sweep empties the custody account of the staking denom.  That the amount
+   x/staking hands back on an unbond is what the module burns, and the supply reported by the custom
+   bank keeper, are covered by the exact correspondence of bank / supply / staking view and the
+   harness monitors on the real modules (partial). *)
 From Coq Require Import ZArith List Bool.
 From Alliance Require Import Num KMap Types Monad Model Step Spec Hoare WitnessLib.
 From Alliance.Witness Require Import F_C11_stranded.
-From Alliance.Proofs Require Import SortedInv Misc.
+From Alliance.Proofs Require Import SortedInv Misc PoolFlow.
 Import ListNotations.
 Open Scope Z_scope.
 
@@ -27,6 +32,12 @@ Proof.
   destruct (complete_unbondings s); auto.
 Qed.
 Print Assumptions C11_unbonding_sweep.
+
+(* the rebalance never leaks what it mints: supply(bond) - bonded pool - not-bonded pool is conserved *)
+Theorem C11_minted_tokens_stay_in_the_pools : forall h als s', let s := run init_state h in
+  rebalance_bond_token_weights als s = Ok tt s' -> N s' = N s.
+Proof. exact minted_tokens_stay_in_the_pools. Qed.
+Print Assumptions C11_minted_tokens_stay_in_the_pools.
 
 (* ... but the block can still END with staking-denom coins in custody: rewards withdrawn by the
    rebalance (which runs after the sweep) for a validator without delegator shares stay there and
